@@ -2,6 +2,7 @@ import JetVerif.Model.Sexp
 import JetVerif.Model.Path
 import JetVerif.Model.Lex
 import Driver.Read
+import JetVerif.Model.Loaders
 
 open JetVerif
 
@@ -65,7 +66,34 @@ def execCmd (store entry exts esc globals vars data fuel : Sexp) : Except String
     | .fuel => pure (.list [.atom "unsupported", .atom "fuel"])
     | .unsupported w => pure (.list [.atom "unsupported", .atom (w.replace " " "-")])
 
+def inmemCmd (ops : List Sexp) : Sexp :=
+  let rec go (l : Loaders.InMem) (acc : Array Sexp) : List Sexp → Array Sexp
+    | [] => acc
+    | .list [.atom "set", .bytes p, .bytes c] :: rest => go (l.set p c) acc rest
+    | .list [.atom "delete", .bytes p] :: rest => go (l.delete p) acc rest
+    | .list [.atom "exists", .bytes p] :: rest => go l (acc.push (Sexp.ofBool (l.exists_ p))) rest
+    | .list [.atom "open", .bytes p] :: rest => go l (acc.push (optBytes (l.open_ p))) rest
+    | _ :: rest => go l (acc.push (.atom "bad-op")) rest
+  .list (go {} #[] ops).toList
+
+def multiCmd (loaders queries : List Sexp) : Sexp :=
+  let mk (s : Sexp) : Loaders.Loader :=
+    match s with
+    | .list es =>
+      let l : Loaders.InMem := es.foldl (fun l e => match e with
+        | .list [.bytes p, .bytes c] => l.set p c
+        | _ => l) {}
+      l.toLoader
+    | _ => ({} : Loaders.InMem).toLoader
+  let m := Loaders.multi (loaders.map mk)
+  .list (queries.map fun q => match q with
+    | .list [.atom "exists", .bytes p] => Sexp.ofBool (m.exists_ p)
+    | .list [.atom "open", .bytes p] => optBytes (m.open_ p)
+    | _ => .atom "bad-op")
+
 def dispatch : Sexp → Sexp
+  | .list (.atom "inmem" :: ops) => inmemCmd ops
+  | .list [.atom "multi", .list loaders, .list queries] => multiCmd loaders queries
   | .list [.atom "exec", store, entry, exts, esc, globals, vars, data, fuel] =>
     match execCmd store entry exts esc globals vars data fuel with
     | .ok r => r
